@@ -37,6 +37,8 @@ def pick_value(rng):
         return 0
     if r < 0.16:
         return rng.randint(1, 6) + rng.choice([2 ** 31, 2 ** 32, 2 ** 63])
+    if r < 0.175:
+        return 2 ** 64 - 1000          # the deep-copy callback (v + 1000, 64-bit) maps it to 0 = NULL
     if r < 0.20:
         return rng.choice([2 ** 64 - 1, 2 ** 64 - 2, 2 ** 64 - 7, 2 ** 64 - 1000, 2 ** 63 - 1, 2 ** 63, 2 ** 32 - 1, 2 ** 32,
                            2 ** 31 - 1, 2 ** 31, 2 ** 63 + 2 ** 32 + 3])
@@ -150,6 +152,7 @@ class ArrayGen:
                             "remove_last", "it_add 7", "it_remove", "it_replace 5", "it_next", "add 4", "add 5", "it_next", "it_add 8", "destroy"])
         if focus in ("sort", "all"):
             out += self.sort_mutate_sort()
+            out += self.sort_append_sort((16, 17, 24, 40) if tier == "quick" else (16, 17, 24, 40, 100))
         if focus in ("derived", "all"):
             for conf_first in (True, False):
                 for k, dst in ((1, 2), (2, 1), (3, 1)):
@@ -238,7 +241,19 @@ class ArrayGen:
             for i in range(n):
                 v = (i * 7 + 3) if rng.random() < 0.9 else pick_value(rng)     # mostly distinct
                 emit(f"add {v}"); xs.append(v)
+            def sorted_tail(cmpk):
+                # ordered run + short tail: sort, append 2 .. size/8 values (some not below the maximum), sort
+                emit(cmpk); xs.sort(key=(lambda v: v % 10) if cmpk == "sort_mod" else None)
+                top = max(xs)
+                for j in range(rng.randint(2, max(2, min(len(xs) // 8, 40)))):
+                    q = rng.random()
+                    v = (top + 10 * (j + 1) + 9 - (top % 10) if q < 0.5 else top if q < 0.7 else rng.randint(0, 99))
+                    v = min(v, 2 ** 64 - 1)
+                    emit(f"add {v}"); xs.append(v)
+                emit(cmpk); xs.sort(key=(lambda v: v % 10) if cmpk == "sort_mod" else None)
+                emit("observe")
             emit("capacity")
+            sorted_tail("sort")
             if h % 2 == 0 or ex == "3":
                 emit("trim_capacity")       # exactly full: the next insertion grows
             for _ in range(rng.randint(250, 400)):
@@ -299,8 +314,28 @@ class ArrayGen:
                     emit("reduce 7")
                 else:
                     emit("capacity")
+            sorted_tail("sort_mod" if h % 2 else "sort")
             ops += ["observe", "get_at 0", "get_last", "observe", "destroy_cb" if h % 2 else "destroy"]
             out.append(ops)
+        return out
+
+    def sort_append_sort(self, ns=(16, 17, 24, 40, 100)):
+        """sort, append a SHORT tail (2 .. size/8 values: above the maximum, equal to it, small ones), sort
+        again with the same and the other comparator: the shape "ordered run + short tail" that an
+        insertion fast path of a sort would take"""
+        out = []
+        for n in ns:
+            vals = [((i * 37 + 11) % 1009) + 20 for i in range(n)]
+            mx = max(vals)
+            for k in sorted({2, 3, max(2, n // 8)}):
+                tails = [[mx + 5, mx + 9, 1, mx, mx + 7, 2, mx + 30][:k] if k <= 7 else [mx + 3 * j if j % 3 else j for j in range(1, k + 1)],
+                         [1, mx + 4, mx + 4, 3, mx + 1][:k] if k <= 5 else [mx + j for j in range(k)],
+                         [mx, mx][:k] + [mx + 1] * max(0, k - 2)]
+                for tail in tails:
+                    for s1, s2 in (("sort", "sort"), ("sort_mod", "sort_mod"), ("sort", "sort_mod"), ("sort_mod", "sort")):
+                        tl = [(v // 10) * 10 + 9 if i % 2 else v for i, v in enumerate(tail)] if s2 == "sort_mod" else tail
+                        out.append(["new cap=4 exp=2"] + [f"add {v}" for v in vals] + [s1, "get_at 0", "get_last"] +
+                                   [f"add {v}" for v in tl] + [s2, "get_at 0", f"get_at {n - 1}", f"get_at {n}", "get_last", "observe", "destroy"])
         return out
 
     def same_array_zips(self):
@@ -383,7 +418,7 @@ class ArrayGen:
                 ("contains_value", 1.5), ("map", 1), ("reduce", 1), ("size", 0.3), ("capacity", 0.3)]
         extra = []
         if focus in ("sort", "all"):
-            extra += [("sort", 4), ("sort_mod", 4), ("sort_mut_sort", 5)]
+            extra += [("sort", 4), ("sort_mod", 4), ("sort_mut_sort", 5), ("sort_append_sort", 3)]
         if focus in ("iter", "all"):
             extra += [("iter_prog", 6), ("zip_prog", 3), ("zip_same_prog", 0.35), ("iter_mixed_prog", 2.5)]
         if focus in ("derived", "all"):
@@ -543,6 +578,23 @@ class ArrayGen:
                             if xs: del xs[0]
                         else: emit_core(d, k)
                     if rng.random() < 0.25: ops.append(f"get_last{sfx}")
+            elif op == "sort_append_sort":
+                # at least 16 elements, sort, a short tail of 2 .. size/8 appended values (some not below the
+                # maximum), sort again
+                k = rng.choice(sorted(L)); xs = L[k]; sfx = f" o={k}" if k else ""
+                n = rng.choice([16, 17, 24, 33, 40, 64])
+                while len(xs) < n:
+                    v = rng.randint(1, 5000) if rng.random() < 0.85 else pick_value(rng); ops.append(f"add {v}{sfx}"); xs.append(v)
+                s1 = rng.choice(["sort", "sort_mod"]); emit_core(s1, k)
+                key = (lambda v: v % 10) if s1 == "sort_mod" else (lambda v: v)
+                top = max(xs, key=key)
+                for j in range(rng.randint(2, max(2, len(xs) // 8))):
+                    r = rng.random()
+                    if s1 == "sort_mod": v = rng.randint(0, 500) * 10 + (9 if r < 0.5 else top % 10 if r < 0.7 else rng.randint(0, 9))
+                    else: v = top + rng.randint(1, 50) if r < 0.5 and top < 2 ** 63 else top if r < 0.7 else rng.randint(0, 30)
+                    ops.append(f"add {v}{sfx}"); xs.append(v)
+                emit_core(s1 if rng.random() < 0.75 else ("sort_mod" if s1 == "sort" else "sort"), k)
+                ops.append(f"get_at 0{sfx}"); ops.append(f"get_at {len(xs) - 2}{sfx}"); ops.append(f"get_last{sfx}")
             elif op == "sort_mut_sort":
                 # sort, 1-3 mutations that break sortedness (largest value to the front, smallest to the
                 # end, ...), sort again with the same or the other comparator, observe
